@@ -154,28 +154,31 @@ section
 variable (σ : Mapper) (req : Request) (es : Entities)
 
 /-- policy-level agreement for a (static or template-linked) policy of the fragment, a partial store completed by `es`
-    and a possibly residual context; the second pass runs on the substituted store `es` (as `reauthorize` documents) -/
-theorem policyAgrees_of_sound (hctx : (Value.record req.context).Canon) (hstore : StoreCanon es)
+    and a possibly residual context; the second pass runs on an arbitrary store `pes2` for which the second pass on a
+    fragment residual computes `evaluate ∘ substUnk σ` (`hbr`: `bridge` for the substituted store, `bridge_direct` for the
+    unsubstituted store with direct unknowns only) -/
+theorem policyAgreesOn_of_sound (pes2 : PEntities)
+    (hbr : ∀ r, Frag2 σ r → ∀ n, Sem (pinterp σ (.ofConcrete req) pes2 [] n r) (evaluate req es [] (r.substUnk σ)))
     (preq : PRequest) (pes : PEntities)
     (p : Policy) (hS' : Sound2 σ req es p.env (Y σ req es p.env p.condition) (pinterp [] preq pes p.env defaultFuel p.condition))
     (hsub : p.condition.substUnk σ = p.condition)
     (hslot : ∀ r, partialEvaluate [] preq pes p = .residual r → r.hasSlot = false)
     (hns2 : ∀ q, residualPolicy (partialEvaluate [] preq pes p) p = some q →
-      partialEvaluate σ (.ofConcrete req) (.ofConcrete es) q ≠ .stuck)
+      partialEvaluate σ (.ofConcrete req) pes2 q ≠ .stuck)
     (hns1 : partialEvaluate [] preq pes p ≠ .stuck) :
-    PolicyAgrees σ preq pes req es p := by
+    PolicyAgreesOn pes2 σ preq pes req es p := by
   have hY : Y σ req es p.env p.condition = evaluate req es p.env p.condition := by simp only [Y, hsub]
   rw [hY] at hS'
   have hout : p.outcome req es = outcomeOf (evaluate req es p.env p.condition) := outcome_eq p req es
   have hpe := partialEvaluate_eq [] preq pes p
-  have hlitT : ∀ n, Sem (pinterp σ (.ofConcrete req) (.ofConcrete es) [] n (.lit (.bool true))) (evaluate req es [] (.lit (.bool true))) := by
-    intro n; simpa [evaluate] using sem_lit (.bool true) σ (.ofConcrete req) (.ofConcrete es) [] n
-  have hlitF : ∀ n, Sem (pinterp σ (.ofConcrete req) (.ofConcrete es) [] n (.lit (.bool false))) (evaluate req es [] (.lit (.bool false))) := by
-    intro n; simpa [evaluate] using sem_lit (.bool false) σ (.ofConcrete req) (.ofConcrete es) [] n
+  have hlitT : ∀ n, Sem (pinterp σ (.ofConcrete req) pes2 [] n (.lit (.bool true))) (evaluate req es [] (.lit (.bool true))) := by
+    intro n; simpa [evaluate] using sem_lit (.bool true) σ (.ofConcrete req) pes2 [] n
+  have hlitF : ∀ n, Sem (pinterp σ (.ofConcrete req) pes2 [] n (.lit (.bool false))) (evaluate req es [] (.lit (.bool false))) := by
+    intro n; simpa [evaluate] using sem_lit (.bool false) σ (.ofConcrete req) pes2 [] n
   have oT : outcomeOf (evaluate req es [] (.lit (.bool true))) = .sat := by simp [evaluate, outcomeOf, Value.asBool]
   have oF : outcomeOf (evaluate req es [] (.lit (.bool false))) = .unsat := by simp [evaluate, outcomeOf, Value.asBool]
   rw [hpe] at hns2 hns1 hslot
-  unfold PolicyAgrees
+  unfold PolicyAgreesOn
   rw [hpe]
   cases hx : pinterp [] preq pes p.env defaultFuel p.condition with
   | fuel => rw [hx] at hns1; exact (hns1 rfl).elim
@@ -184,16 +187,16 @@ theorem policyAgrees_of_sound (hctx : (Value.record req.context).Canon) (hstore 
     rw [hx] at hS' hns2
     obtain ⟨c', hc'⟩ := hS'
     refine ⟨_, rfl, ?_⟩
-    have h := agrees_wrap σ req es p.id p.effect hlitF (hns2 _ rfl)
+    have h := agrees_wrap_on σ req es pes2 p.id p.effect hlitF (hns2 _ rfl)
     refine transfer ?_ h
     rw [hout, hc', oF]; simp [outcomeOf]
   | res r =>
     rw [hx] at hS' hns2 hslot
     have hns : r.hasSlot = false := hslot r rfl
     refine ⟨_, rfl, ?_⟩
-    have hsem : ∀ n, Sem (pinterp σ (.ofConcrete req) (.ofConcrete es) [] n r) (evaluate req es [] (r.substUnk σ)) :=
-      fun n => bridge σ req es [] hctx hstore hS'.2.2 n
-    have h := agrees_wrap σ req es p.id p.effect hsem (hns2 _ rfl)
+    have hsem : ∀ n, Sem (pinterp σ (.ofConcrete req) pes2 [] n r) (evaluate req es [] (r.substUnk σ)) :=
+      fun n => hbr r hS'.2.2 n
+    have h := agrees_wrap_on σ req es pes2 p.id p.effect hsem (hns2 _ rfl)
     refine transfer ?_ h
     have e1 : evaluate req es [] (r.substUnk σ) = Y σ req es p.env r := Y_env req es [] p.env σ hns
     rw [e1, hout]
@@ -206,7 +209,7 @@ theorem policyAgrees_of_sound (hctx : (Value.record req.context).Canon) (hstore 
     | error c =>
       rw [hb] at hns2
       refine ⟨_, rfl, ?_⟩
-      have h := agrees_wrap σ req es p.id p.effect hlitF (hns2 _ rfl)
+      have h := agrees_wrap_on σ req es pes2 p.id p.effect hlitF (hns2 _ rfl)
       refine transfer ?_ h
       rw [hout, hev, oF]; simp [outcomeOf, hb]
     | ok b =>
@@ -214,15 +217,28 @@ theorem policyAgrees_of_sound (hctx : (Value.record req.context).Canon) (hstore 
       | true =>
         rw [hb] at hns2
         refine ⟨_, rfl, ?_⟩
-        have h := agrees_wrap σ req es p.id p.effect hlitT (hns2 _ rfl)
+        have h := agrees_wrap_on σ req es pes2 p.id p.effect hlitT (hns2 _ rfl)
         refine transfer ?_ h
         rw [hout, hev, oT]; simp [outcomeOf, hb]
       | false =>
         rw [hb] at hns2
         refine ⟨_, rfl, ?_⟩
-        have h := agrees_wrap σ req es p.id p.effect hlitF (hns2 _ rfl)
+        have h := agrees_wrap_on σ req es pes2 p.id p.effect hlitF (hns2 _ rfl)
         refine transfer ?_ h
         rw [hout, hev, oF]; simp [outcomeOf, hb]
+
+/-- … the second pass runs on the substituted store `es` (as `reauthorize` documents) -/
+theorem policyAgrees_of_sound (hctx : (Value.record req.context).Canon) (hstore : StoreCanon es)
+    (preq : PRequest) (pes : PEntities)
+    (p : Policy) (hS' : Sound2 σ req es p.env (Y σ req es p.env p.condition) (pinterp [] preq pes p.env defaultFuel p.condition))
+    (hsub : p.condition.substUnk σ = p.condition)
+    (hslot : ∀ r, partialEvaluate [] preq pes p = .residual r → r.hasSlot = false)
+    (hns2 : ∀ q, residualPolicy (partialEvaluate [] preq pes p) p = some q →
+      partialEvaluate σ (.ofConcrete req) (.ofConcrete es) q ≠ .stuck)
+    (hns1 : partialEvaluate [] preq pes p ≠ .stuck) :
+    PolicyAgrees σ preq pes req es p :=
+  policyAgreesOn_of_sound σ req es (.ofConcrete es) (fun _ hf n => bridge σ req es [] hctx hstore hf n)
+    preq pes p hS' hsub hslot hns2 hns1
 
 /-- what partial evaluation established about a policy of the fragment stays true for the completion: the hypothesis
     `Consistent` of `table_sound`, discharged -/
